@@ -38,6 +38,8 @@ def plan(tier, seed):
     for i in range(n_int):
         items.append({'k': 'interleave', 'regime': ('same', 'mixed+switch', 'mixed')[i % 3]})
     items += [{'k': 'replay'}] * n_rep
+    # long-haul replays: tens of thousands of steps before and after the snapshot (how MUCH was executed before must not matter either)
+    items += [{'k': 'longhaul'}] * (8 if tier == 'quick' else 400)
     return items
 
 
@@ -184,6 +186,8 @@ def gen(item, rng, tier):
             cores.append(c)
         style, acts = _schedule(rng, n, [len(c['words']) for c in cores])
         return {'scenario': 'interleave', 'regime': regime, 'style': style, 'cores': cores, 'actions': acts}
+    if item['k'] == 'longhaul':
+        return gen_longhaul(rng)
     cfg = _cfg(rng)
     nt = rng.choice([60, 120, 200])
     core = _core(rng, cfg, nt)
@@ -444,8 +448,82 @@ def run_replay(case):
     return res
 
 
+def gen_longhaul(rng):
+    """a resident loop of 3-8 simple instructions (waits, events, counters, loads/stores, exclusives) stepped by a plain caller"""
+    from sim.asm import A, T
+    from sim.prog import emit
+    cfg = {'arch_version': 7, 'have_security_ext': bool(rng.getrandbits(1)), 'have_virt_ext': False, 'have_lpae': False,
+           'memory_system_architecture': 'PMSA', 'number_of_mpu_regions': 12}
+    thumb = rng.getrandbits(1)
+    if thumb:
+        pool = [T.hint(2), T.hint(2), T.hint(3), T.NOP, T.add_imm8(0, 1), T.add_imm8(1, 3), T.ldst_imm('str', 0, 6, 1), T.ldst_imm('ldr', 2, 6, 1),
+                0xE8560F00 | 3 << 12, 0xE8460000 | 0 << 12 | 4 << 8, T.mov_imm(5, 7), T.dp(0, 1, 0)]
+    else:
+        pool = [A.hint(2), A.hint(2), A.hint(3), A.NOP, A.dp_imm('add', 0, 0, 1), A.dp_imm('add', 1, 1, 3), A.str_(0, 6, 4), A.ldst(1, 2, 6, 4),
+                0xE1963F9F, 0xE1864F90, A.mov_imm(5, 7), A.dp_imm('eor', 1, 1, 0x55)]
+    body = [rng.choice(pool) for _ in range(rng.randrange(3, 9))]
+    code = emit(body, thumb)
+    back = -len(code)
+    code += emit([T.b(back) if thumb else A.b(back)], thumb)
+    devices = G.std_devices(high=False)
+    G.set_data(devices[1], 0, code)
+    regs = {'cpsr': G.random_cpsr(rng, cfg, mode=rng.choice(['svc', 'sys', 'usr']), thumb=thumb) | 0xC0, 'pc': G.CODE,
+            'sys': {'sctlr': G.sctlr_value(m=0, a=0, u=1, te=thumb)}, 'R': G.random_regfile(rng, cfg), 'spsr': G.random_spsrs(rng, cfg, valid=True),
+            'event_register': bool(rng.getrandbits(1))}
+    regs['R']['R6usr'] = G.DATA + 0x400
+    core = {'config': cfg, 'devices': devices, 'regs': regs}
+    return {'scenario': 'longhaul', 'cores': [core], 'n1': rng.randrange(1000, 140000), 'k': rng.randrange(10000, 70000), 'events': []}
+
+
+def run_longhaul(case):
+    core = case['cores'][0]
+    res = {'violations': [], 'cover': set(), 'stats': {}, 'ticks': 0}
+    arm = M.new_arm(core)
+
+    def step(a):
+        try:
+            a.emulate_cycle()
+        except NotImplementedError:
+            a.registers.branch_to((a.registers.pc_store_value() + a.opcode_len // 8) & 0xFFFFFFFF)      # declared-unimplemented hint (SEV, YIELD): skip it
+    for _ in range(case['n1']):
+        step(arm)
+    spec2 = M.snapshot_core_spec(arm, core)
+    armB = M.new_arm(spec2)
+    armB.is_wait_for_event, armB.is_wait_for_interrupt = arm.is_wait_for_event, arm.is_wait_for_interrupt
+    armA = copy.deepcopy(arm)
+    digs = []
+    for j in range(case['k']):
+        step(arm)
+        step(armA)
+        step(armB)
+        l0, lA, lB = M.light(arm), M.light(armA), M.light(armB)
+        if l0 != lA or l0 != lB or (j & 0x3FF) == 0x3FF or j == case['k'] - 1:
+            f0, fA, fB = M.full_state(arm, hidden=False), M.full_state(armA, hidden=False), M.full_state(armB, hidden=False)
+            digs.append(M.digest_of(sorted(f0.items())))
+            for nme, f, orc in (('deep copy', fA, 'replay.deepcopy_eq'), ('instance rebuilt from architectural state', fB, 'replay.rebuilt_eq')):
+                if f != f0:
+                    d = _first_diff(f0, f)
+                    res['violations'].append({'oracle': orc, 'site': 'longhaul', 'cls': _bucket(d), 'tick': case['n1'] + j,
+                                              'detail': '%s diverges %d steps after a snapshot taken at step %d: %s' % (
+                                                  nme, j, case['n1'], ', '.join('%s orig=%r other=%r' % (x, f0.get(x), f.get(x)) for x in d[:4]))})
+            if res['violations']:
+                break
+    res['ticks'] = case['n1'] + 3 * case['k']
+    res['stats']['fault.snapshot-deepcopy'] = 1
+    res['stats']['fault.snapshot-rebuild'] = 1
+    res['stats']['probe.longhaul-steps'] = res['ticks']
+    res['cover'].add('longhaul|%d|%d' % (case['n1'] >> 14, case['k'] >> 14))
+    res['digest'] = M.digest_of(digs)
+    return res
+
+
 def run(case):
     p0 = M.env.print_count[0]
+    if case['scenario'] == 'longhaul':
+        res = run_longhaul(case)
+        res['stats']['prints'] = M.env.print_count[0] - p0
+        res['interesting'] = bool(res['violations'])
+        return res
     res = run_interleave(case) if case['scenario'] == 'interleave' else run_replay(case)
     res['stats']['prints'] = M.env.print_count[0] - p0
     res['interesting'] = bool(res['violations'])
@@ -459,11 +537,23 @@ def sample(case, res):
                                'events': [{k: v for k, v in e.items() if k != 'regs'} for e in c['events'][:4]]} for c in case['cores']],
                 'actions': ''.join('%s%d ' % (a, i) for a, i in case['actions'][:60]), 'violations': res['violations'][:1]}
     c = case['cores'][0]
+    if case['scenario'] == 'longhaul':
+        return {'scenario': 'longhaul', 'config': c['config'], 'steps_before_snapshot': case['n1'], 'steps_after': case['k'],
+                'code': c['devices'][1]['data']['0'], 'violations': res['violations'][:1]}
     return {'scenario': 'replay', 'config': c['config'], 'snapshot_tick': case['s'], 'k': case['k'], 'words': ['%08x' % w for w in c['words'][:8]],
             'events': [{k: v for k, v in e.items() if k != 'regs'} for e in c['events'][:4]], 'violations': res['violations'][:1]}
 
 
 def shrink(case):
+    if case['scenario'] == 'longhaul':
+        # fewer steps after / before the snapshot
+        for k in (case['k'] // 2, case['k'] - 1000):
+            if 0 < k < case['k']:
+                yield dict(case, k=k)
+        for n1 in (case['n1'] // 2, case['n1'] - 1000):
+            if 0 < n1 < case['n1']:
+                yield dict(case, n1=n1)
+        return
     if case['scenario'] == 'interleave':
         cores = case['cores']
         n = len(cores)
